@@ -727,6 +727,26 @@ class _N15(ast.NodeTransformer):
             return new
         return node
 
+    def visit_For(self, node):
+        # N21: `for x in iter(f, S): BODY`  ->  `while True: x = f(); if x is S: break; BODY`
+        # (iter's two-argument form compares with ==; for the identity-compared marker objects it is used with the two agree)
+        self.generic_visit(node)
+        it = node.iter
+        if node.orelse or not isinstance(node.target, ast.Name) or not (isinstance(it, ast.Call) and isinstance(it.func, ast.Name) and it.func.id == "iter"
+                                                                       and len(it.args) == 2 and not it.keywords):
+            return node
+        if not isinstance(it.args[0], (ast.Name, ast.Attribute)) or not isinstance(it.args[1], (ast.Name, ast.Attribute)):
+            return node
+        x = node.target.id
+        call = ast.Call(func=it.args[0], args=[], keywords=[])
+        asg = ast.Assign(targets=[ast.Name(id=x, ctx=ast.Store())], value=call)
+        test = ast.Compare(left=ast.Name(id=x, ctx=ast.Load()), ops=[ast.Is()], comparators=[it.args[1]])
+        brk = ast.If(test=test, body=[ast.Break()], orelse=[])
+        new = ast.While(test=ast.Constant(value=True), body=[asg, brk] + node.body, orelse=[])
+        for y in (call, asg, asg.targets[0], test, test.left, brk, brk.body[0], new, new.test):
+            ast.copy_location(y, node)
+        return new
+
 
 def _n18(tree):
     for cls in [n for n in ast.walk(tree) if isinstance(n, ast.ClassDef)]:
